@@ -55,3 +55,42 @@ Theorem C11_restore_and_future : forall c r l ops v, 1 <= c -> 1 <= r -> Forall 
 Proof. exact C11_restore_and_future. Qed.
 Check C11_restore_and_future : forall c r l ops v, 1 <= c -> 1 <= r -> Forall op_ok ops -> runM (vt_new c r l) ops = Ok v -> dumpable' (vterm v) -> kf1_C11 (vterm v) = false -> kf2_C11 (vterm v) = false -> exists d r0 o0, vt_dump v = Ok d /\ feed_str (vt_new (cols (vterm v)) (rows (vterm v)) None) d = Ok (r0, o0) /\ holds_C11 v r0 = true /\ forall s v' ov, feed_str v s = Ok (v', ov) -> exists r1 o1, feed_str r0 s = Ok (r1, o1) /\ holds_C11 v' r1 = true.
 Print Assumptions C11_restore_and_future.
+
+From Avt Require Import Gen.DumpFns Proofs.BufTie Proofs.DumpTie.
+(** SOURCE TIE BY PROOF (translate/dump2coq.py -> Gen/DumpFns.v): the 13 dump functions are REGENERATED from the Rust source on every run (append-only string building checked, u8 sums bounded statically, usize subtraction / indexing / unreachable!() as guards) and the hand-written model functions - the ones every C11 theorem is about - are proved equal to them on every state satisfying the invariant *)
+(** Vt::dump = Parser::dump ++ Terminal::dump (all 14 steps), on every reachable state *)
+Theorem C11_source_vt_dump : forall v, Inv v -> PensInv (vterm v) -> g_vt_dump v = vt_dump v.
+Proof. exact tie_vt_dump_inv. Qed.
+Check C11_source_vt_dump : forall v, Inv v -> PensInv (vterm v) -> g_vt_dump v = vt_dump v.
+Print Assumptions C11_source_vt_dump.
+
+(** Terminal::dump under the weakest arithmetic precondition (dump_pre: both saved pens have only the five attribute bits; rows >= 1 when the top margin is 0; cols >= 1 - necessary, see dump_pre_necessary in Proofs/DumpTie.v) *)
+Theorem C11_source_term_dump : forall t, dump_pre t -> g_term_dump t =~ term_dump t.
+Proof. exact tie_term_dump. Qed.
+Check C11_source_term_dump : forall t, dump_pre t -> g_term_dump t =~ term_dump t.
+Print Assumptions C11_source_term_dump.
+
+(** Buffer::dump (chunks by pen, REP encoding, CRLF between unwrapped rows), unconditional *)
+Theorem C11_source_buffer_dump : forall b, g_buffer_dump b =~ buf_dump b.
+Proof. exact tie_buffer_dump. Qed.
+Check C11_source_buffer_dump : forall b, g_buffer_dump b =~ buf_dump b.
+Print Assumptions C11_source_buffer_dump.
+
+(** Pen::dump, unconditional *)
+Theorem C11_source_pen_dump : forall p, g_pen_dump p = pen_dump p.
+Proof. exact tie_pen_dump. Qed.
+Check C11_source_pen_dump : forall p, g_pen_dump p = pen_dump p.
+Print Assumptions C11_source_pen_dump.
+
+(** Color::sgr_params, unconditional *)
+Theorem C11_source_sgr_params : forall c base, g_sgr_params c base = sgr_params c base.
+Proof. exact tie_sgr_params. Qed.
+Check C11_source_sgr_params : forall c base, g_sgr_params c base = sgr_params c base.
+Print Assumptions C11_source_sgr_params.
+
+(** Parser::dump with Param's Display *)
+Theorem C11_source_parser_dump : forall p, PInv p -> g_parser_dump p = parser_dumpM p.
+Proof. exact tie_parser_dumpM. Qed.
+Check C11_source_parser_dump : forall p, PInv p -> g_parser_dump p = parser_dumpM p.
+Print Assumptions C11_source_parser_dump.
+
